@@ -9,12 +9,16 @@ C03 — Every operation logs in first and binds its commands to that login's ses
 * `command_bound_to_login` (from C02): the command frame is the reference frame built from the session
   id *of that very login reply*, the same clock reading and the configured device id; it is a function
   of nothing else.
+* `command_carries` / `wire_carries`: read back from the frame itself, text and bytes: session id at bytes 8..12, clock
+  reading at 24..28, device id at 40..43 — for every operation kind and every argument (`Spec.carries`, the predicate the
+  run-time judge evaluates on the bytes the real client wrote).
 * `locality`: for EVERY schedule interleaving ANY number of instances, what instance `i` writes and
   returns is exactly its own sequential run on the replies delivered to it — no session id, clock
   reading or identity of another instance or of an earlier operation can occur in it.
 -/
 import Switcher.Model.Conn
 import Switcher.Props.C02
+import Switcher.Spec.Frame
 namespace Props.C03
 open Spec Model
 
@@ -171,6 +175,65 @@ theorem command_bound_to_login (cfg : Cfg) (now : Nat) (off : Int) (raw r2 : Lis
       IsRefWire (.control on minutes) (sessionId raw) (tsOf now) cfg.deviceId cfg.deviceKey f2 := by
   obtain ⟨f1, f2, h, _, h2⟩ := C02.control_frames cfg now off raw r2 rest on minutes hcfg hnow hraw hacc
   exact ⟨f1, f2, by rw [h], h2⟩
+
+/-! ### what a command frame carries, read back from the frame itself -/
+
+/-- every non-login frame of the protocol has the session id at nibbles 16..24, the timestamp at 48..56 and the device id
+    at 80..86 (the offsets are those of the independent layout reference) -/
+theorem command_offsets (k : Kind) (h1 : k ≠ .login1) (h2 : k ≠ .login2) :
+    fieldAt k .sid = some (16, 24) ∧ fieldAt k .ts = some (48, 56) ∧ fieldAt k .did = some (80, 86) := by
+  cases k <;> simp_all [fieldAt]
+
+/-- READ BACK (text level): whatever the operation and its arguments, the reference command frame built for session id `sid`,
+    clock reading `ts` and device id `did` shows exactly these three at the protocol's offsets — so the frame that
+    `command_bound_to_login` identifies carries the session id of that very login reply, this operation's clock reading and the
+    configured device id, and nothing else in those places -/
+theorem command_carries (op : Op) (sid ts did key : List Char) (h1 : op.kind ≠ .login1) (h2 : op.kind ≠ .login2)
+    (hw : ∀ r' ∈ rolesOf (refSym op.kind), (specEnv op sid ts did key r').length = r'.width) :
+    slice (refFrame op sid ts did key) 16 24 = sid ∧ slice (refFrame op sid ts did key) 48 56 = ts ∧
+    slice (refFrame op sid ts did key) 80 86 = did := by
+  obtain ⟨f1, f2, f3⟩ := command_offsets op.kind h1 h2
+  exact ⟨C02.refFrame_field op sid ts did key .sid 16 24 f1 hw, C02.refFrame_field op sid ts did key .ts 48 56 f2 hw,
+    C02.refFrame_field op sid ts did key .did 80 86 f3 hw⟩
+
+/-- READ BACK (bytes on the wire): the signed frame `f` of a command has the four session-id bytes at 8..12, the four clock
+    bytes at 24..28 and the three device-id bytes at 40..43 — this is the predicate `Spec.carries` the run-time judge
+    evaluates on the bytes the real client wrote -/
+theorem wire_carries (op : Op) (sid ts did key : List Char) (f sidB tsB didB : List Nat)
+    (h1 : op.kind ≠ .login1) (h2 : op.kind ≠ .login2)
+    (hw : ∀ r' ∈ rolesOf (refSym op.kind), (specEnv op sid ts did key r').length = r'.width)
+    (hs : sid = hexlify sidB) (ht : ts = hexlify tsB) (hd : did = hexlify didB)
+    (hsb : IsBytes sidB) (htb : IsBytes tsB) (hdb : IsBytes didB)
+    (hls : sidB.length = 4) (hlt : tsB.length = 4) (hld : didB.length = 3)
+    (hf : IsRefWire op sid ts did key f) : carries f sidB tsB didB = true := by
+  obtain ⟨c1, c2, c3⟩ := command_carries op sid ts did key h1 h2 hw
+  unfold IsRefWire refWire at hf
+  cases hu : unhexlify (refFrame op sid ts did key) with
+  | none => rw [hu] at hf; cases hf
+  | some bs =>
+    rw [hu] at hf
+    simp only [Option.map_some, Option.some.injEq] at hf
+    subst hf
+    have hlen : 43 ≤ bs.length := by
+      have := unhexlify_length _ _ hu
+      have hl : 86 ≤ (refFrame op sid ts did key).length := by
+        have : (slice (refFrame op sid ts did key) 80 86).length = 6 := by rw [c3, hd, hexlify_length, hld]
+        unfold slice at this
+        simp only [List.length_take, List.length_drop] at this
+        omega
+      omega
+    have e1 := slice_bytes_of_hex _ bs sidB 8 12 hu (by rw [show 2 * 8 = 16 from rfl, show 2 * 12 = 24 from rfl, c1, hs]) hsb
+    have e2 := slice_bytes_of_hex _ bs tsB 24 28 hu (by rw [show 2 * 24 = 48 from rfl, show 2 * 28 = 56 from rfl, c2, ht]) htb
+    have e3 := slice_bytes_of_hex _ bs didB 40 43 hu (by rw [show 2 * 40 = 80 from rfl, show 2 * 43 = 86 from rfl, c3, hd]) hdb
+    have pre : ∀ a b, b ≤ bs.length → slice (bs ++ sigBytes bs) a b = slice bs a b := by
+      intro a b hb
+      unfold slice
+      rw [List.drop_append, List.take_append]
+      have : b - a - (bs.length - a) = 0 := by omega
+      simp [this]
+    unfold carries
+    rw [pre 8 12 (by omega), pre 24 28 (by omega), pre 40 43 (by omega), e1, e2, e3]
+    simp [hls, hlt, hld]
 
 /-- LOCALITY.  Under every schedule of any number of instances, instance `i` behaves exactly as in its own
     sequential run on the replies delivered to it. -/
